@@ -1,9 +1,176 @@
 import UF.Driver.Decode
-/- Ops of work group C (see notes/AGENT_GUIDE.md). Return `none` for ops of other groups. -/
+import UF.Spec.Priority
+import UF.Spec.Result
+import UF.Spec.DnsRewrite
+/- Ops of work group C (C06–C09). Return `none` for ops of other groups. -/
 namespace UF.Ops
 
+/-- `c07.prio <R a> <R b>`: model `isHigherPriority a b`, spec "key a > key b". -/
+def opC07Prio (args : List W) : String :=
+  match args with
+  | [a, b] =>
+    match decNetRule a, decNetRule b with
+    | some a, some b => outBool (isHigherPriority a b) ++ " " ++ outBool (specHigher a b)
+    | _, _ => "bad-decode"
+  | _ => "bad-arity"
+
+/-- `c07.matrix (<R>…) (<R>…)`: the matrix, row-major, as a string of T/F. -/
+def opC07Matrix (args : List W) : String :=
+  match args with
+  | [.l rows, .l cols] =>
+    match rows.mapM decNetRule, cols.mapM decNetRule with
+    | some rows, some cols =>
+      let m := String.join (rows.map fun a => String.join (cols.map fun b => outBool (isHigherPriority a b)))
+      let s := String.join (rows.map fun a => String.join (cols.map fun b => outBool (specHigher a b)))
+      m ++ " " ++ s
+    | _, _ => "bad-decode"
+  | _ => "bad-arity"
+
+/-- Decode a list of rules and tag each with its position (in `listID`, which no modelled
+    function of group C reads) so that answers can be printed as indexes. -/
+def decIndexed (w : W) : Option (List NetRule) := do
+  let xs ← w.list?
+  let rs ← xs.mapM decNetRule
+  pure ((rs.zip (List.range rs.length)).map fun (r, i) => { r with listID := (i : Int) })
+
+def outIdx (rs : List NetRule) : String := "(" ++ ",".intercalate (rs.map fun r => toString r.listID) ++ ")"
+
+/-- `c08.negates <R b> <R r>`: model `negatesBadfilter`, spec the twin relation. -/
+def opC08Negates (args : List W) : String :=
+  match args with
+  | [b, r] =>
+    match decNetRule b, decNetRule r with
+    | some b, some r => outBool (negatesBadfilter b r) ++ " " ++ outBool (isTwin b r)
+    | _, _ => "bad-decode"
+  | _ => "bad-arity"
+
+/-- `c08.removebad (<R>…)`: indexes of the survivors; spec = the twin filter. -/
+def opC08RemoveBad (args : List W) : String :=
+  match args with
+  | [rs] =>
+    match decIndexed rs with
+    | some rs => outIdx (removeBadfilterRules rs) ++ " " ++ outIdx (specRemoveBadTwin rs)
+    | none => "bad-decode"
+  | _ => "bad-arity"
+
+/-- `c09.rewrites (<R>…)`: indexes of `DNSRewrites()`; the spec is computed from the rules that
+    carry a rewrite (not through the model's `dnsRewritesAll`). -/
+def opC09Rewrites (args : List W) : String :=
+  match args with
+  | [rs] =>
+    match decIndexed rs with
+    | some rs =>
+      let m := match dnsRewrites rs with
+        | some out => outIdx out
+        | none => "PANIC"
+      m ++ " " ++ outIdx (specRewrites (rs.filter (·.rewrite.isSome)))
+    | none => "bad-decode"
+  | _ => "bad-arity"
+
+def c09LetterIdx (c : Char) : Nat :=
+  if c.toNat ≥ 97 then c.toNat - 97 else c.toNat - 65 + 26
+
+/-- `c09.batch (<R alphabet>…) (-<seq> -<seq> …)`: for each sequence the positions of the survivors. -/
+def opC09Batch (args : List W) : String :=
+  match args with
+  | [.l alpha, .l seqs] =>
+    match alpha.mapM decNetRule with
+    | some alpha =>
+      let alphaArr := alpha.toArray
+      let one (f : List NetRule → Option (List NetRule)) (s : String) : String :=
+        let rs := s.toList.map fun c => alphaArr.getD (c09LetterIdx c) {}
+        let tagged := (rs.zip (List.range rs.length)).map fun (r, i) => { r with listID := (i : Int) }
+        match f tagged with
+        | some out => String.join (out.map fun r => toString r.listID)
+        | none => "X"
+      let ss := seqs.map fun w => match w with | .a s => (s.drop 1).toString | _ => ""
+      let m := ".".intercalate (ss.map (one dnsRewrites))
+      let sp := ".".intercalate (ss.map (one fun rs => some (specRewrites (rs.filter (·.rewrite.isSome)))))
+      "o:" ++ m ++ " o:" ++ sp
+    | none => "bad-decode"
+  | _ => "bad-arity"
+
+/-- `c06.result (<R rules>…) (<R source>…)`: class of `GetBasicResult`; spec `classWeb`. -/
+def opC06Result (args : List W) : String :=
+  match args with
+  | [rs, src] =>
+    match decIndexed rs, decIndexed src with
+    | some rs, some src =>
+      (classOf (getBasicResult (newMatchingResult rs src))).toString ++ " " ++ (classWeb rs src).toString
+    | _, _ => "bad-decode"
+  | _ => "bad-arity"
+
+/-- `c06.pick`: which rule `GetBasicResult` returns: `b<i>` (i-th rule), `d<i>` (i-th source rule). -/
+def opC06Pick (args : List W) : String :=
+  match args with
+  | [rs, src] =>
+    match decIndexed rs, decIndexed src with
+    | some rs, some src =>
+      let m := newMatchingResult rs src
+      let ans := match getBasicResult m with
+        | none => "none"
+        | some r => if m.replaceRules.isEmpty && m.basicRule.isNone then s!"d{r.listID}" else s!"b{r.listID}"
+      ans ++ " -"
+    | _, _ => "bad-decode"
+  | _ => "bad-arity"
+
+def opC06Dns (args : List W) : String :=
+  match args with
+  | [rs] =>
+    match decIndexed rs with
+    | some rs => (classOf (getDNSBasicRule rs)).toString ++ " " ++ (classDns rs).toString
+    | none => "bad-decode"
+  | _ => "bad-arity"
+
+def opC06DnsPick (args : List W) : String :=
+  match args with
+  | [rs] =>
+    match decIndexed rs with
+    | some rs => (match getDNSBasicRule rs with | none => "none" | some r => s!"b{r.listID}") ++ " -"
+    | none => "bad-decode"
+  | _ => "bad-arity"
+
+/-- `c06.resultx`, `c06.dnsbasicx`, `c07.priox`: inputs with option bits that rule text cannot set
+    (set by the harness through reflection); compared with the model only. -/
+def opC06ResultX (args : List W) : String :=
+  match args with
+  | [rs, src] =>
+    match decIndexed rs, decIndexed src with
+    | some rs, some src =>
+      let m := newMatchingResult rs src
+      let res := getBasicResult m
+      let pick := match res with
+        | none => "none"
+        | some r => if m.replaceRules.isEmpty && m.basicRule.isNone then s!"d{r.listID}" else s!"b{r.listID}"
+      (classOf res).toString ++ ":" ++ pick ++ " -"
+    | _, _ => "bad-decode"
+  | _ => "bad-arity"
+
+def opC06DnsX (args : List W) : String :=
+  match args with
+  | [rs] =>
+    match decIndexed rs with
+    | some rs =>
+      let res := getDNSBasicRule rs
+      (classOf res).toString ++ ":" ++ (match res with | none => "none" | some r => s!"b{r.listID}") ++ " -"
+    | none => "bad-decode"
+  | _ => "bad-arity"
+
 def dispatchC (op : String) (args : List W) : Option String :=
-  match op, args with
-  | _, _ => none
+  match op with
+  | "c07.prio" => some (opC07Prio args)
+  | "c07.matrix" => some (opC07Matrix args)
+  | "c08.negates" => some (opC08Negates args)
+  | "c08.removebad" => some (opC08RemoveBad args)
+  | "c09.rewrites" => some (opC09Rewrites args)
+  | "c09.batch" => some (opC09Batch args)
+  | "c06.result" => some (opC06Result args)
+  | "c06.pick" => some (opC06Pick args)
+  | "c06.dnsbasic" => some (opC06Dns args)
+  | "c06.dnspick" => some (opC06DnsPick args)
+  | "c06.resultx" => some (opC06ResultX args)
+  | "c06.dnsbasicx" => some (opC06DnsX args)
+  | "c07.priox" => some (opC07Prio args)
+  | _ => none
 
 end UF.Ops
